@@ -5,6 +5,8 @@ import (
 	"fmt"
 	"os"
 	"path/filepath"
+	"sync"
+	"sync/atomic"
 
 	"github.com/RoaringBitmap/roaring/v2"
 	segment "github.com/blevesearch/scorch_segment_api/v2"
@@ -33,6 +35,7 @@ const (
 	ReqVecFault    = 15
 	ReqSpecVec     = 16
 	ReqStoredVisit = 17
+	ReqReuse       = 18
 )
 
 var Plugin = &zap.ZapPlugin{}
@@ -76,11 +79,13 @@ func CleanTmp() {
 	}
 }
 
-var tmpSeq int
+var tmpSeq int64
+var tmpOnce sync.Once
 
 func TmpPath(tag string) string {
-	tmpSeq++
-	return filepath.Join(TmpDir(), fmt.Sprintf("%s-%d.zap", tag, tmpSeq))
+	tmpOnce.Do(func() { TmpDir() })
+	n := atomic.AddInt64(&tmpSeq, 1)
+	return filepath.Join(tmpDir, fmt.Sprintf("%s-%d.zap", tag, n))
 }
 
 // PersistOpen persists sb to a fresh path and opens it (mmap).
